@@ -74,15 +74,43 @@ def stepBld (st : BRun) (q : String × String) : BRun :=
         else if k = 'F' then
           let (bytes, b') := finish b
           -- total duration of what was built, from the trajectory model
+          let trm := Traj.init bytes
           let dur : String :=
-            match Traj.init bytes with
+            match trm with
             | .ok tr =>
               match (do let p0 ← Traj.rewind Traj.secF32 tr; Traj.totalDurationMsec Traj.secF32 p0) with
               | .ok (_, ms) => toString ms
               | .error _ => "?"
             | .error _ => "?"
-          if parts = ["0", bytesToHex bytes, bytesToHex b'.buf, dur] then { st with b := some b', ops := st.ops + 1 }
-          else { st with err := some s!"finish: model 0:{bytesToHex bytes}:{bytesToHex b'.buf}:{dur} impl {ans}" }
+          -- where the finished trajectory starts and ends, read back through the trajectory model
+          let probe := fun (t : Traj.QTime) (tok : String) =>
+            match trm with
+            | .ok tr =>
+              match (do let p0 ← Traj.rewind Traj.secF32 tr; Traj.positionAt Traj.secF32 p0 t) with
+              | .ok (p', v) =>
+                match tok.splitOn "," with
+                | [rc, x, y, z, w] =>
+                  if rc ≠ "0" then some s!"position query rc {rc}" else
+                  match f32Tok x, f32Tok y, f32Tok z, f32Tok w with
+                  | some fx, some fy, some fz, some fw =>
+                    let s := p'.cur
+                    if closeTo fx v.x (tolPos s.ctrl.x s t) ∧ closeTo fy v.y (tolPos s.ctrl.y s t) ∧ closeTo fz v.z (tolPos s.ctrl.z s t)
+                        ∧ closeTo fw v.yaw (tolPos s.ctrl.yaw s t) then none
+                    else some s!"finished trajectory read back: model {fmtVec v} impl bits {tok}"
+                  | _, _, _, _ => some "unparsable position"
+                | _ => some s!"bad position answer {tok}"
+              | .error _ => some "model cannot evaluate the finished trajectory"
+            | .error _ => some "model cannot load the finished trajectory"
+          match parts with
+          | [rc, hb, hbuf, d, pos0, posEnd] =>
+            if [rc, hb, hbuf, d] ≠ ["0", bytesToHex bytes, bytesToHex b'.buf, dur] then
+              { st with err := some s!"finish: model 0:{bytesToHex bytes}:{bytesToHex b'.buf}:{dur} impl {ans}" }
+            else
+              match probe (.fin 0) pos0, probe .pinf posEnd with
+              | some m, _ => { st with err := some s!"finish (t=0): {m}" }
+              | _, some m => { st with err := some s!"finish (t=end): {m}" }
+              | none, none => { st with b := some b', ops := st.ops + 1 }
+          | _ => { st with err := some s!"finish: model 0:{bytesToHex bytes}:{bytesToHex b'.buf}:{dur} impl {ans}" }
         else { st with err := some s!"unknown call {call}" }
 
 def opBld (args impl : List String) : Verdict :=
